@@ -614,10 +614,12 @@ func (e *Extractor) Text() (string, []Warning, error) {
 		} else if e.options.byColumn {
 			pageText = e.extractByColumn(fragments, pd.page)
 		} else {
-			// Auto-detect: use reading order if multi-column or character-level
+			// Auto-detect: use reading order if multi-column or character-level.
+			// The page's layout is judged on all its fragments: removing headers
+			// and footers must not change how the rest is assembled.
 			width, _ := pd.page.Width()
 			height, _ := pd.page.Height()
-			if isCharacterLevel(fragments) || detectMultiColumn(fragments, width, height) {
+			if isCharacterLevel(pd.fragments) || detectMultiColumn(pd.fragments, width, height) {
 				pageText = e.extractByColumn(fragments, pd.page)
 			} else {
 				pageText = e.assembleText(fragments)
